@@ -32,7 +32,16 @@ func VerifNewAdminClient(zkc zk.Client, options ...Option) AdminClient {
 
 // VerifCloseAdmin closes an admin client created by VerifNewAdminClient.
 func VerifCloseAdmin(ac AdminClient) {
-	ac.(*client).Close()
+	// (AdminClient has no Close and newAdminClient leaves client.done nil:
+	// only the connection to the master is there to be closed)
+	c := ac.(*client)
+	if c.done != nil {
+		c.Close()
+		return
+	}
+	if rc := c.adminRegionInfo.Client(); rc != nil {
+		rc.Close()
+	}
 }
 
 // VerifRegionCache is a stand-alone region location cache (the same type the
